@@ -557,7 +557,7 @@ def regenerate():
     dst = os.path.join(common.COQ, 'theories', 'Gen', 'ChainGen.v')
     try:
         txt = generate()
-    except (Unsupported, SyntaxError, OSError, KeyError) as e:
+    except (Unsupported, SyntaxError, OSError, KeyError, ImportError) as e:
         return False, f'translation failed: {type(e).__name__}: {e}'
     os.makedirs(os.path.dirname(dst), exist_ok=True)
     if not os.path.exists(dst) or open(dst).read() != txt:
